@@ -1116,7 +1116,13 @@ func (f *Frame) makeInterface(in *ssa.MakeInterface) {
 	default:
 		pay = f.fresh(in.Name()+".box", IntS)
 	}
-	f.set(in, &Val{K: VIface, T: in.Type(), Tag: tag, X: pay})
+	iv := &Val{K: VIface, T: in.Type(), Tag: tag, X: pay}
+	if x.K == VAddr || x.K == VSlice {
+		iv.Boxed = x
+	} else if _, isPtr := in.X.Type().Underlying().(*types.Pointer); isPtr && x.K == VScalar {
+		iv.Boxed = x
+	}
+	f.set(in, iv)
 }
 
 func (f *Frame) typeAssert(in *ssa.TypeAssert) {
